@@ -2,6 +2,7 @@ import PV.Model.Eval
 import PV.Model.Ops
 import PV.Model.Traverse
 import PV.Driver.GAOps
+import PV.Driver.EqHashOps
 import PV.Driver.CCodeOps
 import PV.Driver.MemoOps
 import PV.Driver.UnifyOps
@@ -200,6 +201,7 @@ def handlers : List (Sexp → Option Sexp) :=
    , handleUnify
    , handleMemo
    , handleCCode
+   , handleEqHash
    -- HANDLERS
   ]
 
